@@ -8,7 +8,7 @@ use crate::explore::*;
 use crate::rattr::*;
 use serde_json::{Value, json};
 
-const RULE: &str = "(a) every document over a 17-event alphabet (start tags with varied attribute syntax, end tags, ASCII and multi-byte text, comments, doctype; len<=n), whose byte ranges the generator knows, x {observers of everything, handlers that rewrite earlier content} x encodings {UTF-8, Shift_JIS} x schedules (L0, every 1-cut, 2-cuts, byte-wise): every reported range == the generator's range (tags '<'..'>', attribute name/value per an independent attribute parser, comments, doctype; text chunk ranges contiguous and covering exactly their node); (b) every F<=k tag-soup input: ranges in bounds, per handler never overlapping or going backwards, tags start with '<', and identical under every schedule; non-trivial = distinct (document, config) with >=1 located event";
+const RULE: &str = "(a) every document over an 18-event alphabet (start tags with varied attribute syntax, end tags, ASCII and multi-byte text, comments, doctype; len<=n), whose byte ranges the generator knows, x {observers of everything, handlers that rewrite earlier content} x encodings {UTF-8, Shift_JIS, windows-1252} (+ a configuration in which an earlier handler sets an existing attribute, which must then report no location) x schedules (L0, every 1-cut, 2-cuts, byte-wise): every reported range == the generator's range (tags '<'..'>', attribute name/value per an independent attribute parser, comments, doctype; text chunk ranges contiguous and covering exactly their node); (b) every F<=k tag-soup input: ranges in bounds, per handler never overlapping or going backwards, tags start with '<', and identical under every schedule; non-trivial = distinct (document, config) with >=1 located event";
 
 fn doc_alphabet() -> Vec<DEv> {
     let o = |name: &str, raw: &str| DEv::Open { name: name.into(), attrs: AttrSet { raw: raw.into(), parsed: vec![] }, slash: false };
@@ -24,6 +24,8 @@ fn doc_alphabet() -> Vec<DEv> {
         o("a", " t=it's' b'"),
         DEv::Open { name: "br".into(), attrs: AttrSet::none(), slash: true },
         o("x-long-custom-element", " data-x=1"),
+        // non-ASCII attribute values: raw length != decoded length in the legacy encodings
+        o("a", " k=\u{e9}x t=\"\u{30a2}y\" z"),
         DEv::close("a"),
         DEv::close("A "),
         DEv::Text("t".into()),
@@ -52,7 +54,14 @@ fn rewriting_cfg(enc: &str) -> Cfg {
     Cfg::with(hs).strict(false).enc(enc)
 }
 
+/// The configuration whose first handler calls set_attribute("k", ..) on every element: the
+/// first attribute named k (if any) is then programmatic and must report no location.
+fn sets_k(p: &Prepared) -> bool {
+    p.cfg.handlers.first().is_some_and(|h| h.ops.iter().any(|o| matches!(o, Op::SetAttr(n, _) if n == "k")))
+}
+
 fn check_known(p: &Prepared, evs: &[DEv], r: &Rendered, sched: &Sched) -> (Option<String>, usize, usize) {
+    let sets_k = sets_k(p);
     let chunks = sched.chunks(&r.bytes);
     let rr = run(p, &chunks, true);
     let calls = rr.results.len();
@@ -76,10 +85,22 @@ fn check_known(p: &Prepared, evs: &[DEv], r: &Rendered, sched: &Sched) -> (Optio
                 // attributes added by a handler have no location; compare the parsed ones
                 let parsed: Vec<&AttrObs> = attrs.iter().filter(|a| a.nloc.is_some() || a.vloc.is_some()).collect();
                 let programmatic = attrs.len() - parsed.len();
-                if parsed.len() != rt.attrs.len() || programmatic > 1 {
-                    return (Some(format!("handler #{reg}: {} located attributes, reference parser finds {} in {:?}", parsed.len(), rt.attrs.len(), lossy(tag))), calls, located);
+                // an attribute whose value a handler has set is programmatic: no location
+                let mut want_attrs: Vec<&RAttr> = rt.attrs.iter().collect();
+                if sets_k {
+                    if let Some(i) = want_attrs.iter().position(|ra| tag[ra.name.0..ra.name.1].eq_ignore_ascii_case(b"k")) {
+                        want_attrs.remove(i);
+                    }
+                    if let Some(a) = attrs.iter().find(|a| a.name == "k") {
+                        if a.nloc.is_some() || a.vloc.is_some() {
+                            return (Some(format!("handler #{reg}: attribute k was set by an earlier handler but still reports a source location (name {:?}, value {:?}) in {:?}", a.nloc, a.vloc, lossy(tag))), calls, located);
+                        }
+                    }
                 }
-                for (a, ra) in parsed.iter().zip(&rt.attrs) {
+                if parsed.len() != want_attrs.len() || programmatic > 1 {
+                    return (Some(format!("handler #{reg}: {} located attributes, reference parser finds {} in {:?}", parsed.len(), want_attrs.len(), lossy(tag))), calls, located);
+                }
+                for (a, ra) in parsed.iter().zip(want_attrs.iter().copied()) {
                     let want_n = (loc.0 + ra.name.0, loc.0 + ra.name.1);
                     if a.nloc != Some(want_n) {
                         return (Some(format!("attribute name range {:?} != {:?} in {:?}", a.nloc, want_n, lossy(tag))), calls, located);
@@ -223,10 +244,13 @@ pub fn replay(case: &Value) -> Option<String> {
 pub fn run_check(ctx: &Ctx) -> i32 {
     let alpha = doc_alphabet();
     let quick = ctx.quick();
+    let set_k_cfg = Cfg::with(vec![HSpec { log: false, ..HSpec::with_ops(HKind::Element, "*", vec![Op::SetAttr("k".into(), "new value".into())]) }, HSpec::obs(HKind::Element, "*")]).strict(false);
     let cfgs: Vec<Prepared> = vec![
         Prepared::new(observer_cfg("UTF-8")).unwrap(),
         Prepared::new(rewriting_cfg("UTF-8")).unwrap(),
         Prepared::new(observer_cfg("Shift_JIS")).unwrap(),
+        Prepared::new(observer_cfg("windows-1252")).unwrap(),
+        Prepared::new(set_k_cfg).unwrap(),
     ];
     let max_len = if quick { 4 } else { 5 };
     let lv = Levels { l1: true, l2_max_len: if quick { 20 } else { 40 }, bytewise: true, empties: false };
@@ -265,7 +289,7 @@ pub fn run_check(ctx: &Ctx) -> i32 {
         }
     });
     if !ctx.capped.load(std::sync::atomic::Ordering::Relaxed) {
-        ctx.level_done(&format!("(a) D<={max_len} over 17 events x 3 configs x L0,L1,L2,LB: ranges == generator ranges"));
+        ctx.level_done(&format!("(a) D<={max_len} over 18 events x 5 configs x L0,L1,L2,LB: ranges == generator ranges"));
     }
     // (a') long text nodes: more than the decoder's 1 KiB buffer of ASCII followed by non-ASCII
     // or malformed bytes, in one write and cut around the boundary
